@@ -8,6 +8,7 @@ import ZChain.Model.Provider
 `lock <kind> <pid> <client> <value> <now>`                → `<status> <leaf diff>`
 `unlock <kind> <pid> <client> <wall>` · `collect <kind> <pid> <client>` · `kill <kind> <reqId> <caller>` ·
 `shutdown <kind> <reqId> <caller>`                        → `<status> <leaf diff>`
+`delauth <authorizer> <caller>`                           → `<status> <leaf diff>`   (zcnsc delete-authorizer)
 `reward <kind> <pid> <value>`                             → `ok <leaf diff>` | `fail:<class>`   (no transaction: no nonce)
 `setdata <blobber> <0|1>`                                 → `ok <leaf diff>` | `fail:<class>`  (SavedData > 0 or = 0; no transaction)
 `alloc <client> <b1> <b2> <offer>`                        → `ok` | `fail`
@@ -81,7 +82,8 @@ def leafName : Leaf → String
 
 def sortStrs (l : List String) : List String := l.mergeSort (fun a b => decide (a ≤ b))
 
-def leafDiff (a b : State) : String :=
+/-- `extra`: names of leaves outside the model that the operation is known to change (the zcnsc authorizer counter). -/
+def leafDiffX (a b : State) (extra : List String) : String :=
   let ls := (leavesOf a ++ leavesOf b).eraseDups
   let ds := ls.filterMap fun l =>
     match leafVal a l, leafVal b l with
@@ -89,7 +91,9 @@ def leafDiff (a b : State) : String :=
     | some _, none => some ("-" ++ leafName l)
     | some x, some y => if x = y then none else some ("~" ++ leafName l)
     | none, none => none
-  " ".intercalate (sortStrs ds)
+  " ".intercalate (sortStrs (ds ++ extra))
+
+def leafDiff (a b : State) : String := leafDiffX a b []
 
 def showStatus : Status → String
   | .ok => "ok" | .fail e => "fail:" ++ e.tag | .reject => "reject"
@@ -111,7 +115,7 @@ def kindIdx : Kind → Nat
 inner `stakepool.StakePool` layout, the defect repaired by fc9e9de — a regression shows as a disagreement). -/
 def showSP (k : Kind) (i : Id) (sp : SP) : String :=
   let ps := (sortNat (sp.pools.map (·.1)).eraseDups).filterMap fun j =>
-    (kvGet sp.pools j).map fun d => s!"{j}={d.balance}/{d.reward}/{d.stakedAt}"
+    (kvGet sp.pools j).map fun d => s!"{j}={d.balance}/{d.reward}/{d.stakedAt}/d{b01 d.deleted}"
   let w := match sp.wallet with
     | some x => toString x
     | none => "-"
@@ -174,6 +178,14 @@ def step (w : W) (ws : List String) : W × String :=
     match Kind.ofTag? k, num? rid, num? c with
     | some k, some rid, some c => answer w (shutdownTxn w.cfg k w.st ⟨c, rid⟩)
     | _, _, _ => (w, "bad-op")
+  | ["delauth", rid, c] =>
+    match num? rid, num? c with
+    | some rid, some c =>
+      let r := deleteAuthorizerTxn w.cfg w.st ⟨c, rid⟩
+      -- a successful delete-authorizer also decrements the authorizer counter (a leaf outside the model)
+      let d := leafDiffX w.st r.1 (if r.2 = .ok then ["~zcn:auth-count"] else [])
+      ({ w with st := r.1 }, (showStatus r.2 ++ " " ++ d).trimAscii.toString)
+    | _, _ => (w, "bad-op")
   | ["reward", k, pid, v] =>
     match Kind.ofTag? k, num? pid, num? v with
     | some k, some pid, some v =>
